@@ -704,6 +704,10 @@ def random_spec(rng, tok, fx: dict, *, allow=None, depth: int = 0) -> dict:
         a = make_attachment(rng, tok, k, fx)
         if a["cte"] in ("7bit", "8bit") and pol == "SMTP":
             a["data"] = a["data"].replace(b"\n", b"\r\n")      # on the wire a 7bit/8bit text part *is* CRLF-terminated
+        if rng.random() < 0.3:
+            # many mail clients put a Content-ID on every part; a real attachment (Content-Disposition: attachment) stays one
+            a["cid"] = f"<{tok('c')}@att.example.com>"
+            feats.append("att:content-id")
         atts.append(a)
     if inline_n:
         feats.append(f"struct:related:{inline_n}")
